@@ -30,22 +30,22 @@ func nFloat(f float64) J {
 	}
 	return J{"k": "float", "v": floatBits(f)}
 }
-func nBool(b bool) J             { return J{"k": "bool", "v": b} }
-func nStr(s string) J            { return J{"k": "str", "v": latin1(s)} }
-func nId(n string) J             { return J{"k": "id", "n": n} }
-func nPre(op string, r J) J      { return J{"k": "pre", "op": op, "r": r} }
-func nPost(op, name string) J    { return J{"k": "post", "op": op, "n": name} }
-func nInf(op string, l, r J) J   { return J{"k": "inf", "op": op, "l": l, "r": r} }
-func nAsg(def bool, l, r J) J    { return J{"k": "asg", "def": def, "l": l, "r": r} }
-func nIdx(l, i J) J              { return J{"k": "idx", "l": l, "i": i} }
-func nDot(l J, name string) J    { return J{"k": "dot", "l": l, "n": name} }
-func nCall(f J, a ...J) J        { return J{"k": "call", "f": f, "a": jl(a)} }
-func nBi(name string, a ...J) J  { return J{"k": "bi", "n": name, "a": jl(a)} }
-func nArr(e ...J) J              { return J{"k": "arr", "e": jl(e)} }
-func nIf(c J, t []any) J         { return J{"k": "if", "c": c, "t": t, "he": false, "e": []any{}} }
-func nIfElse(c J, t, e []any) J  { return J{"k": "if", "c": c, "t": t, "he": true, "e": e} }
-func nFor(c J, body []any) J     { return J{"k": "for", "c": c, "body": body} }
-func nRet(e J) J                 { return J{"k": "ret", "e": e} }
+func nBool(b bool) J            { return J{"k": "bool", "v": b} }
+func nStr(s string) J           { return J{"k": "str", "v": latin1(s)} }
+func nId(n string) J            { return J{"k": "id", "n": n} }
+func nPre(op string, r J) J     { return J{"k": "pre", "op": op, "r": r} }
+func nPost(op, name string) J   { return J{"k": "post", "op": op, "n": name} }
+func nInf(op string, l, r J) J  { return J{"k": "inf", "op": op, "l": l, "r": r} }
+func nAsg(def bool, l, r J) J   { return J{"k": "asg", "def": def, "l": l, "r": r} }
+func nIdx(l, i J) J             { return J{"k": "idx", "l": l, "i": i} }
+func nDot(l J, name string) J   { return J{"k": "dot", "l": l, "n": name} }
+func nCall(f J, a ...J) J       { return J{"k": "call", "f": f, "a": jl(a)} }
+func nBi(name string, a ...J) J { return J{"k": "bi", "n": name, "a": jl(a)} }
+func nArr(e ...J) J             { return J{"k": "arr", "e": jl(e)} }
+func nIf(c J, t []any) J        { return J{"k": "if", "c": c, "t": t, "he": false, "e": []any{}} }
+func nIfElse(c J, t, e []any) J { return J{"k": "if", "c": c, "t": t, "he": true, "e": e} }
+func nFor(c J, body []any) J    { return J{"k": "for", "c": c, "body": body} }
+func nRet(e J) J                { return J{"k": "ret", "e": e} }
 func nMap(pairs ...[2]J) J {
 	ps := []any{}
 	for _, p := range pairs {
@@ -369,7 +369,7 @@ func (g *Gen) visible(t gType, assignable bool) []gVar {
 	return res
 }
 
-func (g *Gen) pick(n int) int { return g.r.Intn(n) }
+func (g *Gen) pick(n int) int      { return g.r.Intn(n) }
 func (g *Gen) chance(pct int) bool { return g.r.Intn(100) < pct }
 func (g *Gen) use(f string)        { g.Used[f] = true }
 
